@@ -152,10 +152,12 @@ def roundtrip(ctx, rep):
             if bad:
                 x, a, b = bad
                 from harness.mpeval import int_overflow
-                if use_simp and (int_overflow(s0) or any(r[0] == G.INTEGER and abs(r[1]) >= 2 ** 53 for r in s1)):
-                    key = "C16:F3b-int64-wrap"
-                elif use_simp and (c0 or raw_literals):
+                if use_simp and (c0 or raw_literals):
+                    # literal constants in the string (negative integers are parsed as constants too) and simplification: the known
+                    # finding F11a, whatever the size of the integers involved
                     key = "C16:F11a-constants-rebound-after-simplification"
+                elif use_simp and (int_overflow(s0) or any(r[0] == G.INTEGER and abs(r[1]) >= 2 ** 53 for r in s1)):
+                    key = "C16:F3b-int64-wrap"
                 elif NEG_BEFORE_POW.search(text):
                     key = "C16:F11b-negative-literal-before-power"       # repaired in /repo: reported if it ever returns
                 else:
